@@ -84,6 +84,18 @@ func init() {
 					return
 				}
 				defer coldLast(w, l)
+				// a caller does what it likes with slices OTHER functions of the package returned (sorts them, appends to
+				// them, overwrites them); IndexToPath must not care (an AllPaths that handed out a row of IndexToPath's
+				// lookup table was seeded)
+				for _, sz := range []int32{1, 3, 7, 15, 31} {
+					for _, ft := range [][2]uint64{{0, 1 << 63}, {0, 3 << 32}, {1 << 32, 2 << 32}} {
+						ps := bmtree.AllPaths(sz, ft[0], ft[1])
+						ps = append(ps, ^uint64(0))
+						scribbleW(ps)
+					}
+					scribbleW(bmtree.Decode(sz, []uint64{^uint64(0)}))
+				}
+				w.Bucket("cold-start/neighbours-results-scribbled")
 				// the first queries of the process: the extreme (h, index) pairs
 				for _, hb := range []c05Block{{h: 30, start: 1<<31 - 2, n: 1, dup: true}, {h: 0, start: 0, n: 1, dup: true}, {h: 30, start: 0, n: 1, dup: true}, {h: 5, start: 62, n: 1, dup: true}, {h: 4, start: 30, n: 1, dup: true}} {
 					c05Run(w, hb)
